@@ -811,23 +811,23 @@ fn cache_case(seed: u64, ops: u64) -> CaseOut {
 pub fn run(ctx: &Ctx) -> i32 {
     let t = Instant::now();
     let mut rep = Report::default();
-    let g = Group { name: "token-present", cases: ctx.tier.pick(6000, 400_000), budget_s: ctx.tier.pick(25.0, 900.0), exhaustive: false };
+    let g = Group { name: "token-present", cases: ctx.tier.pick(6000, 400_000), budget_s: ctx.tier.pick(25.0, 300.0), exhaustive: false };
     run_group(ctx, &mut rep, &g, |_, seed, trace| present_case(seed, trace));
-    let g = Group { name: "retry-integrity", cases: ctx.tier.pick(2500, 150_000), budget_s: ctx.tier.pick(12.0, 400.0), exhaustive: false };
+    let g = Group { name: "retry-integrity", cases: ctx.tier.pick(2500, 150_000), budget_s: ctx.tier.pick(12.0, 130.0), exhaustive: false };
     run_group(ctx, &mut rep, &g, |_, seed, trace| retry_case(seed, Lane::Null, trace));
     #[cfg(feature = "real")]
     {
-        let g = Group { name: "retry-integrity-rustls", cases: ctx.tier.pick(300, 20_000), budget_s: ctx.tier.pick(12.0, 400.0), exhaustive: false };
+        let g = Group { name: "retry-integrity-rustls", cases: ctx.tier.pick(300, 20_000), budget_s: ctx.tier.pick(12.0, 130.0), exhaustive: false };
         run_group(ctx, &mut rep, &g, |_, seed, trace| retry_case(seed, Lane::Real, trace));
     }
-    let g = Group { name: "retry-late", cases: ctx.tier.pick(2500, 150_000), budget_s: ctx.tier.pick(10.0, 300.0), exhaustive: false };
+    let g = Group { name: "retry-late", cases: ctx.tier.pick(2500, 150_000), budget_s: ctx.tier.pick(10.0, 100.0), exhaustive: false };
     run_group(ctx, &mut rep, &g, |_, seed, trace| retry_late_case(seed, trace));
-    let g = Group { name: "cid-echo", cases: ctx.tier.pick(3000, 150_000), budget_s: ctx.tier.pick(8.0, 300.0), exhaustive: false };
+    let g = Group { name: "cid-echo", cases: ctx.tier.pick(3000, 150_000), budget_s: ctx.tier.pick(8.0, 100.0), exhaustive: false };
     run_group(ctx, &mut rep, &g, |_, seed, trace| cid_echo_case(seed, trace));
     let ops = ctx.tier.pick(3000, 60_000);
-    let g = Group { name: "bloom-log", cases: ctx.tier.pick(400, 10_000), budget_s: ctx.tier.pick(8.0, 300.0), exhaustive: false };
+    let g = Group { name: "bloom-log", cases: ctx.tier.pick(400, 10_000), budget_s: ctx.tier.pick(8.0, 100.0), exhaustive: false };
     run_group(ctx, &mut rep, &g, |_, seed, _| bloom_case(seed, ops));
-    let g = Group { name: "token-cache", cases: ctx.tier.pick(400, 10_000), budget_s: ctx.tier.pick(5.0, 200.0), exhaustive: false };
+    let g = Group { name: "token-cache", cases: ctx.tier.pick(400, 10_000), budget_s: ctx.tier.pick(5.0, 70.0), exhaustive: false };
     run_group(ctx, &mut rep, &g, |_, seed, _| cache_case(seed, ops));
     finish(
         ctx,
